@@ -13,7 +13,7 @@ import (
 
 type latticePoint struct{ Field, Value string }
 
-const c16Bases = 7
+const c16Bases = 8
 
 var intLattice = []string{"<absent>", "0", "-1", "1", "2147483647", "10%", "0%", "200%", "abc%", "50"}
 var durLattice = []string{"<absent>", "0s", "-1s", "500ms", "1s", "10m"}
@@ -142,6 +142,9 @@ func c16Base(i int) (StrategyDef, string) {
 		return StrategyDef{ReconcileFrequency: "10s", SlowStartInterval: "10s", Canary: &CanaryDef{Replicas: "1", Duration: "2m", ValidationMode: "auto", AutoPauseEnabled: bptr(false), AutoFailEnabled: bptr(true), AutoFailMaxRestarts: i32(3), CanaryTimeout: "10m"}}, "auto"
 	case 5: // manual validation with both automatisms switched off
 		return StrategyDef{ReconcileFrequency: "10s", SlowStartInterval: "10s", Canary: &CanaryDef{Replicas: "1", ValidationMode: "manual", AutoPauseEnabled: bptr(false), AutoFailEnabled: bptr(false)}}, "auto"
+	case 7: // fully spelled out except the validation mode, which the controller-level default (manual) supplies
+		return StrategyDef{MaxUnavailable: "1", MaxPodSchedulerFail: "0", SlowStartInterval: "10s", SlowStartIncrease: "1", ReconcileFrequency: "10s", MaxParallel: i32(250),
+			Canary: &CanaryDef{Replicas: "1", NodeSelector: map[string]string{"os": "linux"}, AutoPauseEnabled: bptr(true), AutoPauseMaxRestarts: i32(2), AutoFailEnabled: bptr(true), AutoFailMaxRestarts: i32(5)}}, "manual"
 	default: // fully spelled out: every field the defaulted-recogniser inspects is set, so that a
 		// single absent field exposes what the recogniser does not look at
 		return StrategyDef{MaxUnavailable: "1", MaxPodSchedulerFail: "0", SlowStartInterval: "10s", SlowStartIncrease: "1", ReconcileFrequency: "10s", MaxParallel: i32(250),
@@ -272,5 +275,5 @@ func init() {
 	lat := c16Lattice()
 	register(&Profile{Name: "C16", Decide: []string{"C16"}, Quick: len(lat) * c16Bases, Thorough: len(lat)*c16Bases + len(lat)*len(lat)*c16Bases, Gen: genC16, Body: bodyC16,
 		NonVacuous: []string{"C16.defaulting", "C16.invalid-spec", "C12.write"}, Chunk: 20,
-		Rule: fmt.Sprintf("Boundary lattice of every strategy field (%d points: absent, 0, negative, 1, huge, percent, 0%%, 200%%, malformed percent; durations absent/0/negative/sub-second/positive; booleans; validation mode unset/auto/manual; canary block absent; template name set) applied to 6 base configurations (all defaults, explicit auto canary, manual validation, controller-level default manual, fully spelled-out spec, manual validation with auto-pause and auto-fail disabled), both node-assignment modes; quick enumerates every single-field point, thorough also every pair; each spec goes through a scripted history (deploy across slow-start slots, template change, the manifest applied again with the replica sets reconciled before the re-defaulting, canary with a restarting pod, time-out, validation) on the fake clock with every reconcile recovered and the worker process watched for crashes of child goroutines.", len(lat))})
+		Rule: fmt.Sprintf("Boundary lattice of every strategy field (%d points: absent, 0, negative, 1, huge, percent, 0%%, 200%%, malformed percent; durations absent/0/negative/sub-second/positive; booleans; validation mode unset/auto/manual; canary block absent; template name set) applied to 8 base configurations (all defaults, explicit auto canary, manual validation, controller-level default manual, fully spelled-out spec, manual validation with auto-pause and auto-fail disabled, auto canary with auto-pause off, fully spelled-out spec whose validation mode comes from the controller-level default manual), both node-assignment modes; quick enumerates every single-field point, thorough also every pair; each spec goes through a scripted history (deploy across slow-start slots, template change, the manifest applied again with the replica sets reconciled before the re-defaulting, canary with a restarting pod, time-out, validation) on the fake clock with every reconcile recovered and the worker process watched for crashes of child goroutines.", len(lat))})
 }
